@@ -69,6 +69,7 @@ def check(ctx):
         _init_checks(ctx, N, cls, pkg, axis, S, "PCovFPS", pcov=True)
         _score_checks(ctx, N, cls, pkg, axis, S, "PCovFPS")
     _argmax_check(ctx)
+    _shared(ctx, N)
 
 
 def _score_checks(ctx, N, cls, pkg, axis, S, name):
@@ -197,3 +198,39 @@ def _argmax_check(ctx):
             x = x.args[0]
         ok2 = x == scores.term
     ctx.ob("R-ARGMAX", "argmax is taken over the scorer's own vector", ok2, f"argmax argument {inner!r}", ctx.site(m))
+
+
+def _shared(ctx, N):
+    """obligations shared with C01 (exclusion of selected candidates before the argmax)
+    and C09 (a refit recomputes the distance tables from the new data)"""
+    from ..terms import V as _V
+    from .C08 import _fitted_state
+
+    P = ctx.P
+    base = P.cls("skmatter._selection.GreedySelector")
+    I, st = ctx.interp(), State()
+    scores = arr("scores", "S0", inp=False)
+    sel, Q = arr("sel", "S", inp=False, dtype="int"), integer("Q")
+    o = ctx.bare_object(I, st, base, {"score_threshold": None, "selected_idx_": sel, "n_selected_": Q, "first_score_": None, "score_threshold_type": "absolute"})
+
+    def scorer(interp, args, kw, st_, node):
+        return scores
+
+    r = ctx.call_method(I, st, o, "_get_best_new_selection", _V("func", T("scorer"), func=("builtin", scorer, "scorer")), arr("X", "N", "M"), arr("y", "N", "P"))
+    I2, s2 = ctx.interp(), State()
+    ref = ctx.call_func(I2, s2, "ref.selection_ref.best_new_selection", scores, sel, Q, vconst(None), "absolute", vconst(None))
+    ctx.compare("R-ARGMAX", "next pick = argmax of the distance table with every already selected candidate excluded", N, r, ref, ctx.site(P.method(base, "_get_best_new_selection")))
+    for pkg, axis, S in DIRS:
+        for cname in ("FPS", "PCovFPS"):
+            cls = P.cls(f"skmatter.{pkg}_selection.{cname}")
+            I, st = ctx.interp(stubs={f"_{cname}._update_post_selection": (lambda i_, c_, a_, k_, s_, n_: vconst(None))}), State()
+            stale = {k: v for k, v in _fitted_state(cname, axis, S).items() if isinstance(v, _V)}
+            stale = {k: (arr("stale_" + k, *[repr(d) for d in v.shape], inp=False) if v.shape not in (None, ()) else v) for k, v in stale.items()}
+            stale.update({"_axis": axis, "mixing": scalar("alpha", 0, 1, False, True), "initialize": 0, "random_state": 0})
+            o = ctx.bare_object(I, st, cls, stale)
+            ctx.call_method(I, st, o, "_init_greedy_search", arr("X", "N", "M"), arr("y", "N", "P"), integer("S"))
+            heap = st.heap[o.obj.id]
+            from .. import tq
+
+            left = sorted(k for k in ("norms_", "hausdorff_", "hausdorff_at_select_", "pcovr_distance_") if k in heap and any(x.op == "sym" and str(x.args[0]).startswith("stale_") for x in tq.walk_all(heap[k].term)))
+            ctx.ob("R-INIT", f"{cname}.{pkg}: a refit recomputes norms and distance tables from the new data", not left, f"tables still holding values of the previous fit: {left}", ctx.site(P.method(cls, "_init_greedy_search")), pkg)
